@@ -243,6 +243,18 @@ def run(tier):
         conj.append(('src/ec/ec_prime_%s.c' % w, 'point_decode', 'r', 'and', 3, 'decode results, format byte and curve equation are conjuncts'))
         conj.append(('src/ec/ec_prime_%s.c' % w, 'api_muladd', 'r', 'and', 2, 'second decode and the infinity test are conjuncts'))
         conj.append(('src/ec/ecdsa_%s_vrfy_raw.c' % w, 'br_ecdsa_%s_vrfy_raw' % w, 'res', 'and', 2, 'range borrow and final equality are conjuncts'))
+    # P-256 specialised implementations: the decoding verdict has, besides the format byte (initial value), one conjunct per
+    # coordinate range test (X < p, Y < p: an encoding with a coordinate >= p is not a valid point encoding, X9.62 / SEC 1 2.3.4)
+    # and one for the curve equation -- the same set in all four (sibling agreement)
+    for impl, fn, var, op, need in (('m15', 'p256_decode', 'bad', 'or', 3), ('m31', 'p256_decode', 'bad', 'or', 3),
+                                    ('m62', 'point_decode', 'r', 'and', 3), ('m64', 'point_decode', 'r', 'and', 3)):
+        try:
+            build.load_unit('src/ec/ec_p256_%s.c' % impl)
+        except AnalysisBroken:
+            continue
+        if fn in oblig.funit('src/ec/ec_p256_%s.c' % impl).funcs:
+            conj.append(('src/ec/ec_p256_%s.c' % impl, fn, var, op, need,
+                         'range tests of X and Y against the field prime and the curve equation must each be a conjunct of the decoding verdict'))
     oblig.run_conjuncts(chk, conj, 'ec-conjunct')
     chk.floor('constants', sum(1 for o in chk.obls if o['rule'] == 'curve-constants'), 40)
     return chk.finish()
